@@ -10,6 +10,8 @@ Inductive cb :=
 (* what monitor.run's selects can receive *)
 Inductive minput :=
 | MReady (content : list N)    (* <-m.sub.Ready(), then Cache().List() *)
+| MReadyFail                   (* <-m.sub.Ready(), and Cache().List() fails (the cache has stopped):
+                                  ShutdownInitiated(err); sub.Close(); no callback *)
 | MDone                        (* <-m.sub.Done() *)
 | MEvent (ty : etype) (id : N) (* ev := <-m.sub.Events() *)
 | MClosed.                     (* Events() closed *)
@@ -21,11 +23,13 @@ Definition mstep (p : mphase) (i : minput) : mphase * list cb :=
   match p, i with
   | MWaitReady, MDone => (MStopped, [])
   | MWaitReady, MReady l => (MRunning, [CbInit l])
+  | MWaitReady, MReadyFail => (MStopped, [])
   | MWaitReady, _ => (MWaitReady, [])          (* not received in this phase *)
   | MRunning, MDone => (MStopped, [])
   | MRunning, MClosed => (MStopped, [])
   | MRunning, MEvent ty id => (MRunning, [CbEvent ty id])
   | MRunning, MReady _ => (MRunning, [])       (* Ready is not listened to any more *)
+  | MRunning, MReadyFail => (MRunning, [])
   | MStopped, _ => (MStopped, [])
   end.
 
@@ -63,3 +67,18 @@ Definition monitor_log_ok (events : list (etype * N)) (log : list cb) (complete 
       (negb complete || Nat.eqb (length rest) (length want))
   | CbEvent _ _ :: _ => false
   end.
+
+(* a handler built with BuildHandler() has any subset of the four callbacks;
+   a callback that is absent is skipped (handler.OnX checks for nil) *)
+Record hmask := { h_init : bool; h_create : bool; h_update : bool; h_delete : bool }.
+
+Definition has_cb (m : hmask) (c : cb) : bool :=
+  match c with
+  | CbInit _ => h_init m
+  | CbEvent Create _ => h_create m
+  | CbEvent Update _ => h_update m
+  | CbEvent Delete _ => h_delete m
+  end.
+
+(* what the user's functions see *)
+Definition mrun_masked (m : hmask) (is : list minput) : list cb := List.filter (has_cb m) (mrun MWaitReady is).
